@@ -190,10 +190,19 @@ func (w *World) writerPaths(fn *ssa.Function) *writerInfo {
 							}
 							return false
 						}
-						if isCounter(bo.X) {
-							ev.Extra += "|bound=" + px.term(bo.Y, fr, st).Key()
-						} else if isCounter(bo.Y) {
-							ev.Extra += "|bound=" + px.term(bo.X, fr, st).Key()
+						// `size - i <= 0` is `size <= i` (a size and a counter are non-negative, the
+						// difference cannot overflow): the do-while spelling of the element loop
+						bx, by := bo.X, bo.Y
+						if zc, ok := by.(*ssa.Const); ok && zc.Value != nil && isIntZero(zc) {
+							if d, ok := bx.(*ssa.BinOp); ok && d.Op == token.SUB &&
+								((isCounter(d.Y) && isSizeValue(d.X, 0)) || (isCounter(d.X) && isSizeValue(d.Y, 0))) {
+								bx, by = d.X, d.Y
+							}
+						}
+						if isCounter(bx) {
+							ev.Extra += "|bound=" + px.term(by, fr, st).Key()
+						} else if isCounter(by) {
+							ev.Extra += "|bound=" + px.term(bx, fr, st).Key()
 						}
 					}
 				}
@@ -295,4 +304,10 @@ func encodeKindOf(bounds map[*ssa.Function]string, o *Term) string {
 		return strings.TrimPrefix(k, "encode:")
 	}
 	return ""
+}
+
+// isIntZero: the constant is the integer 0.
+func isIntZero(c *ssa.Const) bool {
+	b, ok := c.Type().Underlying().(*types.Basic)
+	return ok && b.Info()&types.IsInteger != 0 && c.Value != nil && c.Int64() == 0
 }
